@@ -96,6 +96,10 @@ class ChainGen:
         txs = [{'ins': [(bytes(32), 0xffffffff)],
                 'outs': [(50 * 10 ** 8, self.script()), (0, self.script())][:self.rnd.choice([1, 2])]}]
         txs[0]['outs'].append((height * 1000 + salt, self.rnd.choice(self.scripts)))    # make the coinbase unique
+        if self.rnd.random() < 0.2:
+            # a transaction that touches no script hash at all (every output unspendable on both sides of the activation
+            # height): its tx number must still be consumed
+            txs[0]['outs'] = [(0, b'\x00\x6a\x08' + struct.pack('<II', height, salt))]
         for _ in range(self.rnd.randrange(0, max_txs)):
             ins = []
             for _ in range(self.rnd.randrange(1, 4)):
@@ -304,6 +308,18 @@ class World:
                 if got != want:
                     return (f'{what}history of {hx.hex()} (limit {limit}) has {len(got)} entries '
                             f'{[h for _, h in got][:8]}, clean index has {len(want)} {[h for _, h in want][:8]}')
+        # the mempool's view of the confirmed UTXO set: every unspent outpoint resolves to (hashX, value) - zero values
+        # included -, spent or unknown ones to None
+        unspent = sorted(o['utxos'])
+        spent = [(tx['hash'], i) for b in blocks for tx in b['txs'] for i in range(len(tx['outs']))
+                 if (tx['hash'], i) not in o['utxos']][:40]
+        prevouts = unspent + spent + [(bytes([7]) * 32, 0)]
+        got = self.run(self.db.lookup_utxos(prevouts))
+        want = [(o['utxos'][p][0], o['utxos'][p][1]) for p in unspent] + [None] * (len(spent) + 1)
+        for p, g, w_ in zip(prevouts, got, want):
+            if g != w_:
+                return (f'{what}lookup_utxos({p[0].hex()[:16]}..:{p[1]}) returned {g!r}, the clean index has '
+                        f'{"an unspent output " + repr(w_) if w_ else "no such unspent output"}')
         for h in range(o['height'] + 1):
             if self.db.fs_tx_hashes_at_blockheight(h) != o['tx_hashes'][h]:
                 return f'{what}tx hashes of block {h} differ'
